@@ -127,6 +127,8 @@ func c05Build(side string, tag byte, chunks []int, end string, faults []c05Fault
 			conn.WScript[f.Pos] = kit.WStep{Block: true}
 		case "close-err":
 			conn.CloseErr = mk("close", kit.SysErr("close", syscall.EIO))
+		case "close-slow":
+			conn.CloseDelay = 15 * time.Millisecond
 		case "dl-err":
 			conn.DeadlineErr[f.Pos] = mk("set", kit.SysErr("setsockopt", syscall.EINVAL))
 		}
@@ -283,7 +285,12 @@ func c05RunHalfPipes(rec *kit.Rec, cs c05Case) {
 		<-done
 		return
 	}
-	// both directions returned: every conn must get closed (the source is closed asynchronously)
+	// both directions returned: at that instant each conn must have seen a Close call *return* (each half closes
+	// its destination synchronously before it reports completion; only the extra close of its source is asynchronous)
+	if cd, vd := client.ClosesDone(), covert.ClosesDone(); cd == 0 || vd == 0 {
+		rec.Violation("teardown:returned-before-close-finished", "the relay reported completion while a connection was not closed yet",
+			map[string]interface{}{"case": label, "client_close_calls_started": client.Closes(), "client_close_calls_finished": cd, "covert_close_calls_started": covert.Closes(), "covert_close_calls_finished": vd})
+	}
 	deadline := time.Now().Add(20 * time.Second)
 	for (client.Closes() == 0 || covert.Closes() == 0) && time.Now().Before(deadline) {
 		time.Sleep(50 * time.Microsecond)
@@ -355,6 +362,7 @@ func c05FaultUniverse(maxPos int) []c05Fault {
 			}
 		}
 		u = append(u, c05Fault{side, "close-err", 0})
+		u = append(u, c05Fault{side, "close-slow", 0})
 		for p := 0; p <= maxPos+2; p++ {
 			u = append(u, c05Fault{side, "dl-err", p})
 		}
@@ -506,6 +514,7 @@ func TestVerifC05Proxy(t *testing.T) {
 		}
 		client := kit.NewScriptConn("client", kit.TCPAddr("192.0.2.10", 443), kit.TCPAddr("203.0.113.77", 50123), segs, atEnd)
 		client.MaxBlock = 60 * time.Second
+		client.CloseDelay = 15 * time.Millisecond // a close that takes time: Proxy must not return before it finished
 
 		var logbuf bytes.Buffer
 		sw := &syncWriter{w: &logbuf}
@@ -514,8 +523,10 @@ func TestVerifC05Proxy(t *testing.T) {
 		reg := c05Reg(covertAddr)
 		done := make(chan struct{})
 		go func() { Proxy(reg, client, logger); close(done) }()
+		closesDoneAtReturn := -1
 		select {
 		case <-done:
+			closesDoneAtReturn = client.ClosesDone()
 		case <-time.After(60 * time.Second):
 			rec.Violation("teardown:proxy-did-not-return", "Proxy did not return after one side ended", map[string]interface{}{"case": label, "client_ops": opsTail(client)})
 			client.Close()
@@ -547,6 +558,10 @@ func TestVerifC05Proxy(t *testing.T) {
 		// a failed covert dial (refused, or reset before connect() returned) ends Proxy before the relay
 		// starts; closing the client is then the caller's job (handleNewConn) and outside the statement
 		if ts.CovertDialErr == "" {
+			if closesDoneAtReturn == 0 {
+				rec.Violation("teardown:returned-before-close-finished", "Proxy returned while the client connection was not closed yet",
+					map[string]interface{}{"case": label, "client_close_calls_started": client.Closes(), "client_ops": opsTail(client)})
+			}
 			deadline := time.Now().Add(20 * time.Second)
 			for client.Closes() == 0 && time.Now().Before(deadline) {
 				time.Sleep(100 * time.Microsecond)
